@@ -4,7 +4,7 @@
     (trusted base): transactions are atomic, and durable once Commit returned. *)
 From Coq Require Import List NArith Bool Arith.
 From Atlas Require Import Base.Bytes Base.Stutter Exec.ExecModel Exec.ExecProofs Exec.StepProofs Exec.PendingModel Exec.PendingProofs
-  Exec.RunModel Exec.TxModel Exec.TxProofs Exec.RunProofs Exec.CrashProofs.
+  Exec.RunModel Exec.TxModel Exec.TxProofs Exec.RunProofs Exec.CrashProofs Exec.CrashStoreModel Exec.CrashStoreProofs.
 Import ListNotations.
 
 Section C10.
@@ -195,6 +195,63 @@ End Rerun.
 
 End C10.
 
+
+(** ** The store contract the crash model relies on (round 4; Exec/StoreModel.v:
+    EntRevisions.WriteRevision / ReadRevision, Executor.Execute's read). *)
+Section C10store.
+Variable hash : Type.
+Variable hash_eqb : hash -> hash -> bool.
+Variable HS : bytes -> hash.
+
+(** A write is an upsert that overwrites EVERY field: reading the version back
+    returns exactly the row written (applied, total, partial hashes, error, type)
+    and no other row changes. *)
+Theorem C10_store_upsert_overwrites :
+  forall (t : list (rev hash)) r t',
+  write_revision hash t r false = Some t' ->
+  read_revision hash t' (r_version r) false = RRow hash r /\
+  (forall v, v <> r_version r -> read_revision hash t' v false = read_revision hash t v false).
+Proof. exact (store_write_read hash). Qed.
+
+(** A read returns the exact row or "does not exist" -- and "does not exist" only
+    when there is no row; an error of the storage is an error. *)
+Theorem C10_store_read_exact :
+  forall (t : list (rev hash)) v,
+  match read_revision hash t v false with
+  | RRow _ r => tbl_get t v = Some r
+  | RNotExist _ => tbl_get t v = None
+  | RErr _ => False
+  end /\ read_revision hash t v true = RErr hash.
+Proof. exact (fun t v => conj (store_read_exact hash t v) eq_refl). Qed.
+
+(** Execute over the store: a failing read of the file's row executes nothing and
+    writes nothing; otherwise it is the [execute] of every other theorem. *)
+Theorem C10_store_read_error_runs_nothing :
+  forall f (t : list (rev hash)) fs,
+  execute_st hash hash_eqb HS f t true fs = (XRead, t, fs, []) /\
+  execute_st hash hash_eqb HS f t false fs =
+  (let '(o, t', fs', es) := execute hash hash_eqb HS f t fs in (XExec o, t', fs', es)).
+Proof. exact (fun f t fs => conj (execute_st_read_error hash hash_eqb HS f t fs) (execute_st_ok hash hash_eqb HS f t fs)). Qed.
+
+(** A refused revision write is a crash right before it: when Execute ends with a
+    write error (any file, table, fault stream) every event before the refused write
+    succeeded, nothing follows it, and without a transaction the state left is the
+    state the LAST crash point of the run shows, which is a before-write point. So
+    every theorem about crashed states (C10_none_rerun_completes, C10_rev_sound, ...)
+    covers the state a storage fault leaves. *)
+Theorem C10_store_write_fault_is_crash :
+  forall f (c : db hash) fs t' fs' es,
+  execute hash hash_eqb HS f (d_tbl c) fs = (OWriteErr, t', fs', es) ->
+  (exists es0 x, es = es0 ++ [EWrite x false] /\ Forall (fun e => event_ok hash e = true) es0) /\
+  forall c' tr, run_direct hash es c = (c', tr) -> exists tr0, tr = tr0 ++ [(BeforeWrite, c')].
+Proof.
+  exact (fun f c fs t' fs' es H =>
+    conj (execute_write_err hash hash_eqb HS f (d_tbl c) fs t' fs' es H)
+         (write_fault_is_crash hash hash_eqb HS f c fs t' fs' es H)).
+Qed.
+
+End C10store.
+
 Print Assumptions C10_all_atomic.
 Print Assumptions C10_file_never_half_applied.
 Print Assumptions C10_none_prefix.
@@ -203,6 +260,10 @@ Print Assumptions C10_file_rerun_completes.
 Print Assumptions C10_all_rerun_completes.
 Print Assumptions C10_none_rerun_completes.
 Print Assumptions C10_rev_sound.
+Print Assumptions C10_store_upsert_overwrites.
+Print Assumptions C10_store_read_exact.
+Print Assumptions C10_store_read_error_runs_nothing.
+Print Assumptions C10_store_write_fault_is_crash.
 
 Definition s (n : N) : bytes := [40%N; n; 41%N].
 Definition ex_dir : list tfile :=
@@ -288,3 +349,14 @@ Proof.
   split; [intros f [<-|[<-|[]]]; discriminate|]. split; [intros f [<-|[<-|[]]]; reflexivity|].
   vm_compute. repeat split; reflexivity.
 Qed.
+
+(** Store contract, non-vacuity: a 2-statement file whose second progress write is
+    refused (fault stream: started ok, exec ok, write ok, exec ok, write REFUSED). *)
+Example C10_store_write_fault_nonvacuous :
+  let f := mkFile [49%N] [s 1; s 2] false in
+  let '(o, t', _, es) := execute bytes bytes_eqb (fun b => b) f [] [false; false; false; false; true] in
+  o = OWriteErr /\ length es = 5 /\
+  let '(c', tr) := run_direct bytes es (mkDb [] []) in
+  d_journal c' = [s 1; s 2] /\ map (@r_applied bytes) (d_tbl c') = [1] /\
+  crash_state bytes tr BeforeWrite 3 = Some c'.
+Proof. vm_compute. repeat split; reflexivity. Qed.
